@@ -55,16 +55,13 @@ func (s *BoltStore) Get(name enc.Name, prefix bool) (wire []byte, err error) {
 		}
 
 		if prefix {
+			// The newest version can be under any key with this prefix (keys are
+			// ordered by name, not by version), so every one of them is examined:
+			// giving up after a fixed number of keys returned an older version
+			// once enough versions had been published.
 			c := bucket.Cursor()
-			iter := 1000
 			maxVer := uint64(0)
 			for k, v := c.Seek(key); k != nil && bytes.HasPrefix(k, key); k, v = c.Next() {
-				if iter--; iter <= 0 {
-					// checked too many keys ... give up
-					// TODO: find a better way to enforce this never happens upstream
-					break
-				}
-
 				if len(v) < 8 {
 					continue
 				}
